@@ -328,9 +328,17 @@ func (w *World) Build(b, src, variant, val string, r *rand.Rand) (*Built, error)
 		}
 	} else if b == "p_start_xhr" {
 		req.Header.Set("X-Requested-With", "XMLHttpRequest")
+	} else if a := acceptPool[r.Intn(len(acceptPool))]; a != "" {
+		// the page variant: whatever a browser navigation, curl, fetch() or an HTTP library announces
+		req.Header.Set("Accept", a)
 	}
 	return &Built{Svc: svc, Req: req}, nil
 }
+
+// acceptPool: Accept headers of clients that are NOT asking for the JSON variant ("" = no header)
+var acceptPool = []string{"", "", "", "text/html,application/xhtml+xml,application/xml;q=0.9,image/avif,image/webp,*/*;q=0.8",
+	"text/html", "*/*", "text/plain", "text/*", "text/plain, */*;q=0.5", "application/xml", "image/png", "text/html;q=0.9, text/plain",
+	"*/*;q=0.1", "TEXT/PLAIN", "text/plain;charset=utf-8"}
 
 // Handler of a service.
 func (w *World) Handler(svc string) http.Handler {
